@@ -28,6 +28,8 @@ PID = "C08"
 PROOF_FILES = ["theories/Props/C08.v", "theories/Proofs/Mpr.v", "theories/Checker/PenMpr.v", "theories/Checker/Pen.v", "theories/Checker/Narrow.v",
                "theories/Checker/Shapes.v", "theories/Spec/Convex.v"]
 EPS_DIR = Fr(1, 10 ** 9)
+BUILD_TARGETS = ["theories/Props/C08.vo", "theories/Checker/PenMpr.vo", "theories/Checker/Pen.vo", "theories/Checker/Narrow.vo",
+                 "theories/Model/MprRun.vo"]
 TINY = Fr(1, 2 ** 52)     # zero direction is accepted for depth <= one machine epsilon ("the depth is 0")
 COAXIAL_KINDS = ["sphere", "sphere", "capsule", "cylinder", "ellipsoid", "box"]
 # arms of mpr.py observed by the worker (harness/impl/narrowp.py)
@@ -247,11 +249,19 @@ def correspondence(R, cases, results):
     stats = dict(compared=0, agree=0, mismatch=0, weights_arm_fallback=0)
     if not exprs:
         return stats
-    try:
-        outs = cm.coq_eval_lines(PID, CORR_HEADER, exprs, tag="model", per_file=60, timeout=1500)
-    except RuntimeError as e:
-        R.corr_broken.append(f"model evaluation failed: {str(e)[:300]}")
-        return stats
+    outs = None
+    for attempt in range(2):
+        try:
+            outs = cm.coq_eval_lines(PID, CORR_HEADER, exprs, tag="model", per_file=60, timeout=1500)
+            break
+        except RuntimeError as e:
+            if attempt < 2 and "inconsistent assumptions" in str(e):
+                import time as _t
+                _t.sleep(15 * attempt)
+                cm.coq_build(BUILD_TARGETS)
+                continue
+            R.corr_broken.append(f"model evaluation failed: {str(e)[:300]}")
+            return stats
     from .c05 import parse_coq_value
     for i, o in zip(idx, outs):
         m = parse_coq_value(o)
@@ -277,7 +287,7 @@ def run(tier, seed, replay=None):
     R.cov["rule"] = ("case = ordered pair of colliders (10 kinds, optional Margin); streams: depth / lattice / deep / nested overlapping pairs "
                      "(as in C07; overlap pre-checked by the harness' own float GJK), concentric (centres coincide exactly), coaxial (centres and support points on one line, overlap 0 .. deep), touch (lattice colliders in exact touching contact), gap (plane gap in "
                      "{0, +-1e-9 .. 100}: touching, barely overlapping, separated); distinct by canonical hash; non-trivial = mpr_penetration "
-                     "returned and its answer was judged by a certificate")
+                     "reported an intersection (a depth, direction and position exist) and that result was judged by pen_cert")
     R.assumptions += [
         "the verdict per input is a Coq theorem (Props/C08.v) applied to the implementation's output; universality over inputs comes from generation",
         "witnesses (directions, membership witnesses, cone trees) are computed in floating point by the harness and are untrusted",
@@ -285,8 +295,7 @@ def run(tier, seed, replay=None):
         "certificate exists, that certificate is evaluated and reported); rejected-but-unconfirmed results are counted as ambiguous",
         "a collider's point set is the exact shape expression of the floats handed to its constructor (harness/narrow.py parts() is trusted for that translation)",
     ]
-    R.check_proofs(PROOF_FILES, build_targets=["theories/Props/C08.vo", "theories/Checker/PenMpr.vo", "theories/Checker/Pen.vo",
-                                               "theories/Checker/Deep.vo", "theories/Checker/Narrow.vo", "theories/Model/MprRun.vo"])
+    R.check_proofs(PROOF_FILES, build_targets=BUILD_TARGETS)
     cases = []
     corpus = cm.VERIF / "corpus" / PID
     if replay:
@@ -375,7 +384,8 @@ def run(tier, seed, replay=None):
         if v is None:
             continue
         pz, c, r = judged[i], cases[i], results[i]
-        distinct.add(cm.canon_hash(dict(c1=c["c1"], c2=c["c2"])))
+        if pz["kind"] == "yes":
+            distinct.add((cm.canon_hash(dict(c1=c["c1"], c2=c["c2"])), (r.get("final_portal") or {}).get("state")))
         if v:
             continue
         s = sec.get(i, {})
@@ -452,14 +462,16 @@ def bools(R, exprs, tag="cert"):
     if not exprs:
         return []
     outs = None
-    for attempt in range(2):
+    for attempt in range(3):
         try:
             outs = cm.coq_eval_lines(PID, npn.COQ_HEADER + "From D3 Require Import Checker.PenMpr.\n", exprs, tag=tag,
                                      per_file=12, timeout=1500)
             break
         except RuntimeError as e:
-            if attempt == 0 and "inconsistent assumptions" in str(e):
-                cm.coq_build([f"theories/Props/{PID}.vo"])
+            if attempt < 2 and "inconsistent assumptions" in str(e):
+                import time as _t
+                _t.sleep(15 * attempt)
+                cm.coq_build(BUILD_TARGETS)
                 continue
             R.proof_broken.append(f"checker evaluation failed: {str(e)[:400]}")
             return [None] * len(exprs)
